@@ -3,6 +3,7 @@ CONSTANTS
   Mode = "race"
   MaxG = 3
   MaxFr = 2
+  Big = FALSE
 INVARIANTS
   Fidelity
   Emit
